@@ -147,6 +147,7 @@ __CPROVER_ensures(WATCH_FIRST ==> (gh_watch_val == (HAD_ITEMS ? ',' : '#')))
 size_t SCPI_ResultArbitraryBlockData(scpi_t * context, const void * data, size_t len)
 __CPROVER_requires(CTX_OUT_PRE(context) && CTX_ERRQ_OK(context) && len <= 1000000000ul && (len == 0 || data == NULL || __CPROVER_is_fresh(data, len)))
 __CPROVER_assigns(context->arbitrary_remaining, context->output_count, GHOST_OUT, ERRPUSH_FRAME(context))
+__CPROVER_ensures(CTX_ERR_POST(context))
 /* more than announced: refused with -310, nothing written, accounting untouched */
 __CPROVER_ensures(len > OLD(context->arbitrary_remaining) ==> (RET == 0 && WROTE == 0 && context->arbitrary_remaining == OLD(context->arbitrary_remaining)
     && context->output_count == OLD(context->output_count) && PUSHED_ONE(context, SCPI_ERROR_SYSTEM_ERROR) && gh_out_calls == OLD(gh_out_calls)))
@@ -159,6 +160,7 @@ __CPROVER_ensures((len <= OLD(context->arbitrary_remaining) && data != NULL && l
 size_t SCPI_ResultArbitraryBlock(scpi_t * context, const void * data, size_t len)
 __CPROVER_requires(CTX_OUT_PRE_L(context, 2) && CTX_ERRQ_OK(context) && len < 1000000000ul && (len == 0 || __CPROVER_is_fresh(data, len)))
 __CPROVER_assigns(context->arbitrary_remaining, context->output_count, GHOST_OUT, ERRPUSH_FRAME(context))
+__CPROVER_ensures(CTX_ERR_POST(context))
 __CPROVER_ensures(context->arbitrary_remaining == 0 && context->output_count == OLD(context->output_count) + 1 && NO_PUSH(context))
 __CPROVER_ensures(gh_out_calls - OLD(gh_out_calls) <= 3)
 __CPROVER_ensures(RET == WROTE && WROTE == (HAD_ITEMS ? 1 : 0) + 2 + len + (len >= 100000000u ? 9 : len >= 10000000u ? 8 : len >= 1000000u ? 7 : len >= 100000u ? 6
